@@ -797,7 +797,15 @@ class Interp:
                 raise Unsupported("list.sort")
             if name == "copy":
                 return list(recv)
-            if name in ("append", "insert", "pop", "clear", "reverse", "count"):
+            if name == "count":
+                (x,) = args
+                n_ = 0
+                for y in recv:
+                    t = True if y is x else self.eq_term(y, x)
+                    if (t is True) or (not isinstance(t, bool) and ctx.branch(t)):
+                        n_ += 1
+                return n_
+            if name in ("append", "insert", "pop", "clear", "reverse"):
                 if name == "pop" and args and is_sym(args[0]):
                     raise Unsupported("pop symbolic index")
                 try:
@@ -949,6 +957,7 @@ class Interp:
             if hook is not None and hook(self, s, env):
                 return
             n = 0
+            broke = False
             while self.truth(self.eval(s.test, env)):
                 n += 1
                 if n > getattr(ctx, "while_bound", 64):
@@ -956,9 +965,12 @@ class Interp:
                 try:
                     self.exec_block(s.body, env)
                 except _Break:
+                    broke = True
                     break
                 except _Continue:
                     continue
+            if not broke:
+                self.exec_block(s.orelse, env)
         elif T is ast.Raise:
             if s.exc is None:
                 cur = env.lookup("__active_exc__")[1]
@@ -1507,6 +1519,8 @@ class Interp:
             return Tpl([Atom("bool", meta={"term": v.t}, kind="fmtbool")])
         if isinstance(v, (list, tuple)) and not is_concrete(v):
             return Atom("str(list)", kind="str")
+        if isinstance(v, ExcVal) and len(v.args) == 1 and isinstance(v.args[0], str) and not issubclass(v.cls, KeyError):
+            return v.args[0]          # str(e) of an exception built with one message string
         if isinstance(v, (ExcVal, dict, ClassInfo, SFloat)):
             return Atom("str(obj)", kind="str")
         return str(v)
